@@ -8,6 +8,7 @@ import (
 	"os/exec"
 	"strconv"
 	"strings"
+	"sync"
 	"time"
 )
 
@@ -56,9 +57,57 @@ type proc struct {
 	argv  []string
 	cmd   *exec.Cmd
 	in    io.WriteCloser
-	out   *bufio.Reader
+	out   *lineQueue
 	dead  bool
 	isCvc bool
+}
+
+// lineQueue drains the solver's stdout in the background so that a chatty
+// solver can never block on a full pipe while we are still writing to it.
+type lineQueue struct {
+	mu    sync.Mutex
+	cond  *sync.Cond
+	lines []string
+	err   error
+}
+
+func newLineQueue(r io.Reader) *lineQueue {
+	q := &lineQueue{}
+	q.cond = sync.NewCond(&q.mu)
+	go func() {
+		br := bufio.NewReaderSize(r, 1<<16)
+		for {
+			line, err := br.ReadString('\n')
+			q.mu.Lock()
+			if line != "" {
+				q.lines = append(q.lines, line)
+			}
+			if err != nil {
+				q.err = err
+				q.cond.Broadcast()
+				q.mu.Unlock()
+				return
+			}
+			q.cond.Broadcast()
+			q.mu.Unlock()
+		}
+	}()
+	return q
+}
+
+// ReadString returns the next line (the delimiter argument is ignored: lines only).
+func (q *lineQueue) ReadString(_ byte) (string, error) {
+	q.mu.Lock()
+	defer q.mu.Unlock()
+	for len(q.lines) == 0 {
+		if q.err != nil {
+			return "", q.err
+		}
+		q.cond.Wait()
+	}
+	l := q.lines[0]
+	q.lines = q.lines[1:]
+	return l, nil
 }
 
 // Solver drives one persistent SMT solver process (optionally a second one that
@@ -103,7 +152,7 @@ func startProc(kind string, timeoutMs int) (*proc, error) {
 	if err := cmd.Start(); err != nil {
 		return nil, err
 	}
-	return &proc{name: name, argv: argv, cmd: cmd, in: in, out: bufio.NewReaderSize(out, 1<<16), isCvc: isCvc}, nil
+	return &proc{name: name, argv: argv, cmd: cmd, in: in, out: newLineQueue(out), isCvc: isCvc}, nil
 }
 
 // NewSolver starts solver `kind` ("z3", "z3-new", "cvc5"); second may be "" or another kind.
@@ -401,6 +450,38 @@ func (s *Solver) Check() Result {
 		s.Stats.NUnknown++
 	}
 	return r
+}
+
+// SetTimeout changes the per-query timeout of the primary z3-style solver.
+func (s *Solver) SetTimeout(ms int) {
+	for _, p := range []*proc{s.p, s.second} {
+		if p != nil && !p.isCvc {
+			io.WriteString(p.in, fmt.Sprintf("(set-option :timeout %d)\n", ms))
+		}
+	}
+	if s.trace != nil {
+		io.WriteString(s.trace, fmt.Sprintf("(set-option :timeout %d)\n", ms))
+	}
+}
+
+// CheckOneShot decides pc ∧ extra from a fresh solver state (no push/pop), which
+// lets z3 use its preprocessing tactics instead of the incremental core. The
+// solver is left holding exactly these assertions at level 0; the caller must
+// Reset and re-assert its path condition before further incremental use.
+func (s *Solver) CheckOneShot(pc []*Term, extra *Term, vars []*Term) (Result, map[string]uint64) {
+	s.Reset()
+	for _, t := range pc {
+		s.Assert(t)
+	}
+	if extra != nil {
+		s.Assert(extra)
+	}
+	r := s.Check()
+	var m map[string]uint64
+	if r == Sat {
+		m = s.Model(vars)
+	}
+	return r, m
 }
 
 // CheckWith checks satisfiability of the current stack plus extra, leaving the stack unchanged.
